@@ -21,6 +21,8 @@ MUTANTS = [
     ("C01", "quiet", PAT, "        min_repeat = max(min_repeat, min_length)", "        min_repeat = max(min_length, min_repeat)", "commuted max()"),
     # ---- C02
     ("C02", "detect", HY, "        return self.generator is not None and (self.location == \"body\" or self.value is not None)", "        return self.generator is not None", "is_generated ignores absent values"),
+    ("C02", "detect", "specs/openapi/negative/mutations.py", "            k in (\"type\", \"properties\", \"items\", \"minItems\")", "            k in (\"type\", \"properties\", \"items\", \"minItems\", \"maxLength\")", "maxLength never negated"),
+    ("C02", "detect", "specs/openapi/negative/mutations.py", "            if key in candidates or enabled_keywords.is_enabled(key):\n                is_negated = True", "            if key in candidates or enabled_keywords.is_enabled(key):\n                is_negated = False", "negation reported as failure"),
     # ---- C03
     ("C03", "detect", COV, "        if larger not in seen and (maximum is None or larger <= maximum):", "        if larger not in seen:", "near-boundary number above maximum is labelled positive"),
     ("C03", "detect", COV, "        if larger not in seen and (max_items is None or larger <= max_items):", "        if larger not in seen and (max_items is None or larger <= max_items + 1):", "array one item over maxItems labelled positive"),
